@@ -128,6 +128,8 @@ func sharedSnapshot() string {
 		"wsutil.DefaultWriteBuffer="+fmt.Sprint(wsutil.DefaultWriteBuffer),
 		"wsflate.DefaultParameters="+renderValue(reflect.ValueOf(wsflate.DefaultParameters)),
 		"wsflate.DefaultHelper="+renderValue(reflect.ValueOf(wsflate.DefaultHelper)),
+		fmt.Sprintf("harness: TLSConfig of the Dialer shared by all sessions: ServerName=%q MinVersion=%d RootCAs-nil=%t NextProtos=%v", sharedTLS.ServerName, sharedTLS.MinVersion, sharedTLS.RootCAs == nil, sharedTLS.NextProtos),
+		"harness: shared Dialer="+renderValue(reflect.ValueOf(sharedDialer)),
 		fmt.Sprintf("ws.StatusRanges=%v %v %v %v", ws.StatusRangeNotInUse, ws.StatusRangeProtocol, ws.StatusRangeApplication, ws.StatusRangePrivate),
 	)
 	return strings.Join(lines, "\n")
